@@ -378,12 +378,8 @@ theorem atTs_lm (ts : TokenSet) : LM (atTs ts) := by
     rw [hro] at hm
     rw [atTs_eq] at h ⊢
     rw [hA.pos_eq, hA.kinds _ (by omega)]
-    split at h
-    · simp at h
-    · rename_i hc
-      simp only [hc, if_false]
-      simp only [Except.ok.injEq] at h; subst h
-      exact ⟨s', rfl, hA⟩
+    simp only [Except.ok.injEq] at h; subst h
+    exact ⟨s', rfl, hA⟩
   · intro s r h
     have := atTs_readOnly ts s r h
     rw [this]; exact Nat.le_refl _
